@@ -8,7 +8,12 @@ from esv.engine.loader import Repo
 from esv.engine.pipeline import Pipeline
 from esv.engine.absint import PyExc, Unsupported, AObj
 from esv.engine.sta import show
-from esv.spec.skeletons import all_skeletons
+from esv.spec.skeletons import all_skeletons, gen_random, gen_extra
+import os
+if os.environ.get("FAMILY") == "random":
+    all_skeletons = lambda t: gen_random(True)
+elif os.environ.get("FAMILY") == "extra":
+    all_skeletons = lambda t: gen_extra(True)
 stride = int(sys.argv[1]) if len(sys.argv) > 1 else 20
 offset = int(sys.argv[2]) if len(sys.argv) > 2 else 0
 repo = Repo(); ctx = Ctx(repo, "quick")
